@@ -4,6 +4,8 @@ from .. import cases as K
 from ..layer_a import Engine
 from ..runner import run_coexec, replay_coexec
 from ..tuple_part import TuplePart
+from ..deleg_part import DelegPart
+from ..layer_b import ConcurrentPart
 from .C02 import chain_counts
 
 MODULE = "Props.C03"
@@ -196,10 +198,42 @@ def engines(tier):
     return es
 
 
+def counting_programs(rng, tier):
+    """2-3 threads (clones) matching patterns with tight count expectations (exactly n, at least n met exactly, then-chains) the same number
+    of times as sequential callers would: the counts the verdict is computed from must not depend on the interleaving"""
+    progs = []
+    for (nth, ncalls) in [(2, 1), (2, 2), (3, 1)] + ([(3, 2)] if tier == "thorough" else []):
+        for ops in ([("ret", 1), ("n", nth * ncalls)], [("ret", 1), ("al", nth * ncalls)], [("ret", 1), ("n", 1), ("then",), ("ret", 2), ("n", nth * ncalls - 1)],
+                    [("ret", 1), ("n", nth * ncalls + 1)]):
+            if ops[-1][1] == 0:
+                continue
+            terms = [{"kind": "call", "mid": 0, "opener": "each", "pat": {"matcher": 255, "dbg": 1, "ops": ops}}]
+            progs.append({"partial": False, "terms": terms, "threads": [[(0, k)] * ncalls for k in range(nth)], "sched": []})
+    return progs
+
+
+def receiver_case(rng):
+    """C15's generator (provided methods of every receiver kind; by-value / sole-owner Rc / Arc calls consume the original, which is
+    verified at that moment) with count expectations that are frequently unmet when the original goes"""
+    from . import C15
+    c = C15.gen_case(rng)
+    for t in c["terms"]:
+        if t["mid"] in (10, 11) and rng.random() < 0.5:
+            ops = t["pat"]["ops"]
+            if ops and ops[0][0] == "ret" and len(ops) == 1:
+                t["pat"]["ops"] = ops + [("n", rng.randint(2, 4))]
+    return c
+
+
 def run(tier, seed):
     return run_coexec("C03", tier, seed, module=MODULE, theorems=THEOREMS, gen_cases=gen_cases,
                       nontrivial=nontrivial, rule=RULE, engines=engines(tier), stats=stats,
-                      parts=[TuplePart("C03", project, n_quick=30)])
+                      parts=[TuplePart("C03", project, n_quick=30),
+                             DelegPart("C03", receiver_case, "correspondence C03 (receiver part): the verdict when the original is consumed by a provided "
+                                       "method with a by-value / Rc / Arc receiver (it travels through the delegation helper and back) vs the model",
+                                       n_quick=40, n_thorough=300, rule=receiver_case.__doc__),
+                             ConcurrentPart("C03", counting_programs, "correspondence C03 (concurrent part): match counts and verdict when clones call "
+                                            "concurrently, every interleaving, vs the Layer B model (C10_joined_equals_sequential)")])
 
 
 def replay(path):
